@@ -77,11 +77,13 @@ package validators
 //@   ensures set: v.accumReward != nil && v.accumReward.val == old(value.val)
 //@   ensures reported: ledgerDelta(v.bus.checker, 0) == old(ledgerDelta(v.bus.checker, 0)) + old(value.val) - old(v.accumReward.val)
 //@   ensures othercoins: forall k types.CoinID :: k != 0 ==> ledgerDelta(v.bus.checker, k) == old(ledgerDelta(v.bus.checker, k))
+//@   modifies v.accumReward, v.isAccumRewardDirty, ledgerDelta(v.bus.checker, 0)
 //@ func (*Validator).AddAccumReward
 //@   serves C01 C19
 //@   requires v != nil && v.bus != nil && v.accumReward != nil && amount != nil
 //@   ensures added: v.accumReward != nil && v.accumReward.val == old(v.accumReward.val) + old(amount.val)
 //@   ensures reported: ledgerDelta(v.bus.checker, 0) == old(ledgerDelta(v.bus.checker, 0)) + old(amount.val)
+//@   modifies v.accumReward, v.isAccumRewardDirty, ledgerDelta(v.bus.checker, 0)
 //@ func (*Validator).GetAccumReward
 //@   serves C19
 //@   requires v != nil && v.accumReward != nil
@@ -133,3 +135,35 @@ package validators
 //@   loop 2 invariant idx2: -1 <= rangeindex && (rangeindex < len(o) || (rangeindex == -1 && len(o) == 0))
 //@   loop 2 invariant match: forall j int :: 0 <= j && j <= rangeindex && old(o[j].tmAddress) == deref(candidate.tmAddress) ==> accumReward == old(o[j].accumReward) && absentTimes == old(o[j].AbsentTimes)
 //@   loop 2 invariant nomatch: (forall j int :: 0 <= j && j <= rangeindex ==> old(o[j].tmAddress) != deref(candidate.tmAddress)) ==> accumReward != nil && fresh(accumReward) && accumReward.val == 0 && absentTimes != nil && fresh(absentTimes) && forall b int :: !bit(absentTimes, b)
+
+//@ # ---------------------------------------------------------------- payout (C19, C01)
+//@ # C19: the payout never pays more than was accrued, except for the increased reward of locked stakes, which is
+//@ # returned to the caller (and added to the emission there): over the whole call the base-coin holdings ledger grows by
+//@ # at most the returned amount. (Payments, the zeroing of the accrued rewards and the remainder sent to the
+//@ # total-slashed pool are all reported to the ledger by the functions called - proved there.)
+//@ func (*Validators).PayRewardsV5Fix
+//@   serves C19 C01
+//@   let ck = v.bus.checker
+//@   requires v != nil && v.bus != nil && allocated(v.list)
+//@   # wiring (assumed state invariant): the app module reports to the same ledger
+//@   requires wiring: appChecker(v.bus.app) == v.bus.checker
+//@   requires wf: forall i int :: 0 <= i && i < len(v.list) ==> v.list[i] != nil && allocated(v.list[i]) && v.list[i].bus == v.bus && v.list[i].accumReward != nil && allocated(v.list[i].accumReward) && v.list[i].accumReward.val >= 0 && v.list[i].totalStake != nil && allocated(v.list[i].totalStake) && v.list[i].totalStake.val > 0
+//@   requires distinct: forall i int, j int :: 0 <= i && i < j && j < len(v.list) ==> v.list[i] != v.list[j] && v.list[i].accumReward != v.list[j].accumReward
+//@   ensures [C19,C01] neveroverpaid: moreRewards != nil && ledgerDelta(ck, 0) - old(ledgerDelta(ck, 0)) <= moreRewards.val
+//@   ensures othercoins: forall k types.CoinID :: k != 0 ==> ledgerDelta(ck, k) == old(ledgerDelta(ck, k))
+//@   local vals []*Validator
+//@   loop 0 invariant idx: -1 <= rangeindex && vals == v.list && moreRewards != nil && fresh(moreRewards) && moreRewards.val == 0 && moreRewards != totalAccumRewards
+//@   loop 1 invariant idx: -1 <= rangeindex && vals == v.list && moreRewards != nil && fresh(moreRewards) && moreRewards.val == 0 && moreRewards != totalStakes
+//@   loop 2 invariant idx: -1 <= rangeindex && (rangeindex < len(vals) || (rangeindex == -1 && len(vals) == 0)) && vals == v.list && v.list == old(v.list) && moreRewards != nil && fresh(moreRewards)
+//@   loop 2 invariant todo: forall i int :: rangeindex < i && i < len(vals) ==> vals[i].accumReward == old(vals[i].accumReward) && vals[i].totalStake == old(vals[i].totalStake) && vals[i].bus == v.bus
+//@   loop 2 invariant todovalues: forall i int :: rangeindex < i && i < len(vals) ==> vals[i].accumReward != nil && allocated(vals[i].accumReward) && vals[i].accumReward.val >= 0
+//@   loop 2 invariant stakes: forall i int :: 0 <= i && i < len(vals) ==> vals[i].totalStake == old(vals[i].totalStake) && vals[i].bus == v.bus
+//@   loop 2 invariant ledger: ledgerDelta(ck, 0) - moreRewards.val <= old(ledgerDelta(ck, 0))
+//@   loop 2 invariant othercoins: forall k types.CoinID :: k != 0 ==> ledgerDelta(ck, k) == old(ledgerDelta(ck, k))
+//@   loop 3 invariant idx: -1 <= rangeindex && (rangeindex < len(stakes) || (rangeindex == -1 && len(stakes) == 0))
+//@   loop 3 invariant nonneg: totalReward != nil && totalReward.val >= 0
+//@   loop 3 invariant accrued: validator.accumReward != nil && validator.accumReward.val >= 0
+//@   loop 3 invariant amounts: remainder != nil && DAOReward != nil && DevelopersReward != nil && validator.accumReward == old(validator.accumReward) && validator.totalStake == old(validator.totalStake) && validator.bus == v.bus
+//@   loop 3 invariant ledger: ledgerDelta(ck, 0) + remainder.val + DAOReward.val + DevelopersReward.val - moreRewards.val - validator.accumReward.val <= old(ledgerDelta(ck, 0))
+//@   loop 3 invariant othercoins: forall k types.CoinID :: k != 0 ==> ledgerDelta(ck, k) == old(ledgerDelta(ck, k))
+//@   loop 3 invariant outer: vals == v.list && v.list == old(v.list) && moreRewards != nil && (forall i int :: loop2_rangeindex + 1 < i && i < len(vals) ==> vals[i].accumReward == old(vals[i].accumReward) && vals[i].totalStake == old(vals[i].totalStake) && vals[i].bus == v.bus) && (forall i int :: 0 <= i && i < len(vals) ==> vals[i].totalStake == old(vals[i].totalStake) && vals[i].bus == v.bus)
